@@ -923,9 +923,11 @@ def tlc_all(ctx, rep, extra):
 
 
 PINNED = [   # (case, size the code as it stands computes, size of the intended design)
-    (case('util', 'BGR', 1000, 1, [xf('maxsize', 10, 10, True)]), (10, 0), (10, 1)),
-    (case('video', 'BGR', 1000, 1, [xf('maxsize', 10, 10, True)]), (10, 0), (10, 1)),
-    (case('util', 'BGR', 49, 49, [xf('maxsize', 1, 1, True)]), (0, 0), (1, 1)),
+    # the zero-dimension defect (as-is (10, 0) / (0, 0)) was repaired by fix: commit 333dc8c; the former witnesses stay
+    # pinned so that the reference keeps computing the repaired result for them
+    (case('util', 'BGR', 1000, 1, [xf('maxsize', 10, 10, True)]), (10, 1), (10, 1)),
+    (case('video', 'BGR', 1000, 1, [xf('maxsize', 10, 10, True)]), (10, 1), (10, 1)),
+    (case('util', 'BGR', 49, 49, [xf('maxsize', 1, 1, True)]), (1, 1), (1, 1)),
 ]
 
 
